@@ -107,3 +107,98 @@ func CountFrames(sub string) int {
 	}
 	return n
 }
+
+// repoFrames returns the frames part of a goroutine block (the "created by" trailer removed) when it holds a frame
+// of the code under test or of the graph library, else "".
+func repoFrames(g GInfo) string {
+	s := g.Stack
+	if i := strings.Index(s, "\ncreated by "); i >= 0 {
+		s = s[:i]
+	}
+	if !strings.Contains(s, "bartossh/Computantis/src/") && !strings.Contains(s, "heimdalr/dag.") {
+		return ""
+	}
+	// drop the header (goroutine id, wait minutes) and argument/offset noise
+	lines := strings.Split(s, "\n")
+	var keep []string
+	for _, l := range lines[1:] {
+		if strings.HasPrefix(l, "\t") {
+			if j := strings.LastIndex(l, " +0x"); j >= 0 {
+				l = l[:j]
+			}
+		} else if j := strings.LastIndex(l, "("); j >= 0 {
+			l = l[:j]
+		}
+		keep = append(keep, l)
+	}
+	return g.State + "\n" + strings.Join(keep, "\n")
+}
+
+// ConfirmStuck decides, without a timing threshold on the operation itself, whether the code under test is
+// blocked for good: over `looks` goroutine profiles `gap` apart, every goroutine that is inside the code under test
+// (or the graph library) is parked in a blocking state (never running, runnable or in a syscall) and the whole set
+// of such stacks is identical in every profile, and at least one of them waits for a lock or a channel. A slow but
+// progressing operation (machine load, GC pressure) shows a running/runnable goroutine or a changing stack in
+// at least one look and is NOT confirmed. Returns the verdict and the parked stacks for the report.
+func ConfirmStuck(looks int, gap time.Duration) (bool, string) {
+	prev, same := "", 0
+	for i := 0; i < 4*looks; i++ {
+		if i > 0 {
+			time.Sleep(gap)
+		}
+		cur, ok := stuckLook()
+		if !ok || (same > 0 && cur != prev) {
+			// progress (or a goroutine that just joined the queue for the lock): start counting again
+			same = 0
+			if ok {
+				prev, same = cur, 1
+			}
+			continue
+		}
+		prev = cur
+		same++
+		if same >= looks {
+			if len(prev) > 6000 {
+				prev = prev[:6000]
+			}
+			return true, prev
+		}
+	}
+	return false, ""
+}
+
+// stuckLook takes one profile: ok is false when any goroutine inside the code under test can run, or none waits.
+func stuckLook() (string, bool) {
+	var set []string
+	waiting := false
+	for _, g := range Goroutines() {
+		f := repoFrames(g)
+		if f == "" {
+			continue
+		}
+		switch g.State {
+		case "running", "runnable", "syscall", "sleep":
+			return "", false
+		}
+		if strings.Contains(g.State, "GC") {
+			return "", false
+		}
+		if g.State == "chan send" || g.State == "chan receive" || strings.HasPrefix(g.State, "sync.") || g.State == "semacquire" {
+			waiting = true
+		}
+		set = append(set, f)
+	}
+	if !waiting {
+		return "", false
+	}
+	sortStrings(set)
+	return strings.Join(set, "\n--\n"), true
+}
+
+func sortStrings(a []string) {
+	for i := 1; i < len(a); i++ {
+		for j := i; j > 0 && a[j] < a[j-1]; j-- {
+			a[j], a[j-1] = a[j-1], a[j]
+		}
+	}
+}
